@@ -178,6 +178,12 @@ func main() {
 	for ci0 := 0; ci0 < len(cfgs)*len(mins); ci0++ {
 		ci, cfg := ci0%len(cfgs), cfgs[ci0%len(cfgs)]
 		cap := &capture{min: mins[ci0/len(cfgs)]}
+		// the handler's level may change after the middleware was built (a slog.LevelVar turned down at run time): what
+		// counts is the level at the time of the request. Every other configuration starts two levels higher.
+		runtimeMin := cap.min
+		if ci0%2 == 1 {
+			cap.min = runtimeMin + 8
+		}
 		var opts []fox.GlobalOption
 		opts = append(opts, fox.WithMiddleware(fox.LoggerWithHandler(cap)))
 		if cfg.global != nil {
@@ -228,6 +234,7 @@ func main() {
 				}
 			})
 		}
+		cap.min = runtimeMin
 		for bi, b := range behs {
 			// the redirect follows a route request directly: it is served from the pooled context that request just released
 			for _, kind := range []string{"route", "redirect", "noroute", "nomethod", "options", "route-via-lookup", "route-escaped"} {
